@@ -29,11 +29,12 @@ from .c12_str import (V, Unk, Const, Param, Neg, Abs, Round, IntOf, FloatOf, Len
 class FuncV(V):
     """a function defined inside the function under evaluation (nested def / lambda); it is followed when called from that very frame,
     where its free variables are the caller's locals"""
-    __slots__ = ("node", "owner", "closure")
+    __slots__ = ("node", "owner", "closure", "defaults")
 
-    def __init__(self, node, owner, closure=None):
+    def __init__(self, node, owner, closure=None, defaults=None):
         self.node, self.owner = node, owner
         self.closure = closure               # locals of the frame that defined it, once that frame has returned (a function made by a factory)
+        self.defaults = defaults             # {parameter: value} of the defaults, evaluated where the function was defined
 
     def __eq__(self, o):
         return isinstance(o, FuncV) and o.node is self.node
@@ -427,7 +428,7 @@ class Engine:
         if isinstance(s, ast.Continue):
             return [(st, "continue", None)]
         if isinstance(s, ast.FunctionDef):
-            st.env[s.name] = FuncV(s, id(self))
+            st.env[s.name] = FuncV(s, id(self), defaults=self._defaults_of(s, st))
             return [(st, "next", None)]
         if isinstance(s, ast.Delete):
             for t in s.targets:
@@ -745,6 +746,8 @@ class Engine:
             return [(bool(v.value), st)]
         if isinstance(v, Tup):
             return [(bool(v.items), st)]
+        if isinstance(v, Opaque) and v.name in ("falsy", "truthy"):
+            return [(v.name == "truthy", st)]       # an and / or chain whose value is open but whose truth is not
         if is_str(v):
             from .c12_model import width_bounds
             lo, hi = width_bounds(v, lambda name: None)
@@ -755,6 +758,13 @@ class Engine:
         return self.undecided(test, st, ("truth", v, None))
 
     def undecided(self, test, st, vals=None):
+        if vals is not None and all(x is None or is_num(x) or isinstance(x, (Param, Lit, Const)) for x in vals[1:]):
+            # the same question about the same parameter asked again on this path (`if tolist:` ... `if tolist:`): the answer taken then
+            for f in st.facts:
+                old = f[3] if len(f) > 3 else None
+                if old is not None and old[1:] == vals[1:] and (old[0] == vals[0] if isinstance(vals[0], str) or isinstance(old[0], str)
+                                                                else type(old[0]) is type(vals[0])):
+                    return [(f[1], st)]
         txt = ast.unparse(test)
         return [(True, st.fork(fact=(txt, True, test, vals))), (False, st.fork(fact=(txt, False, test, vals)))]
 
@@ -775,6 +785,8 @@ class Engine:
                 same = True
             elif is_num(other) or is_str(other) or isinstance(other, (Tup, Param)) or (isinstance(other, Opaque) and other.name in ("field", "misread")):
                 same = False
+            elif isinstance(other, Const):
+                same = other.value is None          # True / False / a match object of concrete text: not None
             if same is not None:
                 return [(same == isinstance(op, (ast.Is, ast.Eq)), st)]
         if isinstance(a, Lit) and isinstance(b, Lit) and isinstance(op, (ast.Eq, ast.NotEq)):
@@ -863,6 +875,7 @@ class Engine:
                 if v.owner != id(self) or len(self._stack) >= MAX_INLINE_DEPTH or ("<local>" + nm) in self._stack or not _plain_function(v.node):
                     return None
                 node._c12_closure = v.closure
+                node._c12_defaults = v.defaults
                 return "<local>" + nm, v.node
             if not (isinstance(v, Opaque) and v.name.startswith("name:") and not v.args):
                 return None
@@ -1067,7 +1080,24 @@ class Engine:
         except Unsupported as e:
             return Unk(str(e))
 
-    def bind_args(self, fn, args, kw):
+    def _defaults_of(self, fn, st):
+        """defaults of a nested function / lambda, evaluated in the state that defines it (`lambda flag=<test on a local>: ...`)"""
+        a = fn.args
+        pos = [x.arg for x in a.posonlyargs + a.args]
+        pairs = list(zip(pos[len(pos) - len(a.defaults):], a.defaults)) + [(k.arg, d) for k, d in zip(a.kwonlyargs, a.kw_defaults) if d is not None]
+        out = {}
+        for nm, d in pairs:
+            if isinstance(d, ast.Constant):
+                continue                         # bind_args evaluates constants itself
+            try:
+                v = self._ev(d, st.fork())
+            except (Raised, Unsupported):
+                continue
+            if not (_has_unknown(v) or isinstance(v, Opaque)):
+                out[nm] = v
+        return out or None
+
+    def bind_args(self, fn, args, kw, given=None):
         a = fn.args
         if a.vararg or a.kwarg:
             return None
@@ -1087,6 +1117,9 @@ class Engine:
                 continue
             if nm not in dflt:
                 return None
+            if given and nm in given:
+                env[nm] = given[nm]
+                continue
             try:
                 v = Engine(self.ctx, self.rel, None)._ev(dflt[nm], State({}, Interval()))
             except (Raised, Unsupported):
@@ -1097,7 +1130,7 @@ class Engine:
     def inline_call(self, name, fn, args, kw, st, node):
         """evaluate a function of the module on the argument values, continuing the caller's path (interval, recorded tests, effects)
         -> [(caller state after the call, 'value' | 'raise' | 'exc', payload)] or None when the call cannot be bound"""
-        env = self.bind_args(fn, args, kw)
+        env = self.bind_args(fn, args, kw, getattr(node, "_c12_defaults", None) if name.startswith("<local>") else None)
         if env is None:
             return None
         closure = name.startswith("<local>")
@@ -1430,6 +1463,19 @@ class Engine:
                 truths = {t for t, _ in self._decide(e, st.fork())} if self.cond_hook is not None and not isinstance(e, ast.NamedExpr) \
                     else {t for t, _ in self._truth(e, v, st.fork())}
                 if len(truths) != 1:
+                    # the truth of this operand is open, so the value is not known - but its truth is when a later operand certainly
+                    # ends the chain: `flag and <false>` is false whatever the flag (it is the flag if that is false, else <false>)
+                    for e2 in node.values[i + 1:]:
+                        probe = st.fork()
+                        try:
+                            v2 = self._ev(e2, probe)
+                            t2 = {t for t, _ in self._truth(e2, v2, probe.fork())}
+                        except (Raised, Unsupported):
+                            break
+                        if probe.effects != st.effects:
+                            break
+                        if t2 == {not is_and}:
+                            return Opaque("falsy" if is_and else "truthy", (Lit(ast.unparse(node)),))
                     return Opaque("test", (Lit(ast.unparse(node)),))
                 if truths.pop() != is_and:
                     return v
@@ -1443,13 +1489,37 @@ class Engine:
                 return Const(truths.pop())
             return Opaque("test", (Lit(ast.unparse(node)),))
         if isinstance(node, ast.Lambda):
-            return FuncV(node, id(self))
+            return FuncV(node, id(self), defaults=self._defaults_of(node, st))
         if isinstance(node, ast.NamedExpr) and isinstance(node.target, ast.Name):
             v = self._ev(node.value, st)
             st.env[node.target.id] = v
             return v
         if isinstance(node, ast.Starred):
             return Unk("starred")
+        if isinstance(node, ast.DictComp) and len(node.generators) == 1 and not node.generators[0].is_async:
+            # {key: value for x in <literal sequence>}: item by item; a later item replaces an earlier one with the same key
+            g = node.generators[0]
+            it = _as_sequence(self._ev(g.iter, st))
+            if not isinstance(it, Tup):
+                return Unk("comprehension over a non-literal sequence")
+            items = []
+            inner = st.fork()
+            for item in it.items:
+                self.assign(g.target, item, inner)
+                keep = True
+                for c in g.ifs:
+                    truths = {t for t, _ in self.decide(c, inner.fork())}
+                    if len(truths) != 1:
+                        return Unk(f"undecided filter {ast.unparse(c)}")
+                    if not truths.pop():
+                        keep = False
+                        break
+                if keep:
+                    k, v = self._ev(node.key, inner), self._ev(node.value, inner)
+                    if not (is_num(k) or isinstance(k, (Lit, Const))):
+                        return Unk("dict comprehension with keys that are not constants")
+                    items = [(q, x) for q, x in items if q != k] + [(k, v)]
+            return DictV(tuple(items))
         if isinstance(node, (ast.ListComp, ast.GeneratorExp)) and len(node.generators) == 1 and not node.generators[0].is_async:
             g = node.generators[0]
             memo = st.env.get(_comp_key(node))
@@ -1834,6 +1904,7 @@ class Engine:
             if f.owner != id(self) or not _plain_function(f.node) or len(self._stack) >= MAX_INLINE_DEPTH:
                 return NotImplemented
             site._c12_closure = f.closure
+            site._c12_defaults = f.defaults
             return self._inline_single("<local>" + getattr(f.node, "name", "lambda"), f.node, list(args), dict(kw or {}), st, site)
         if isinstance(f, Opaque) and f.name.startswith("name:") and not f.args:
             nm = f.name[5:]
@@ -1875,6 +1946,8 @@ class Engine:
                 sl = slice(None, idx[0]) if len(idx) == 1 else slice(*idx)
                 if sl.step is None or sl.step > 0:
                     return Tup(_as_sequence(args[0]).items[sl])
+        if lib == "operator.contains" and len(args) == 2 and not kw and isinstance(args[0], Lit) and isinstance(args[1], Lit):
+            return Const(args[1].s in args[0].s)             # operator.contains(text, piece) is `piece in text`
         if lib == "io.StringIO" and not args and not kw:
             return BufV(())
         if lib == "functools.partial" and args and (isinstance(args[0], FuncV) or (isinstance(args[0], Opaque) and args[0].name.startswith("name:") and not args[0].args)):
@@ -2018,6 +2091,8 @@ class Engine:
             return NotImplemented
         if meth == "format":
             return template_format(recv, args, kw)
+        if meth in ("split", "rsplit") and not args and not kw and isinstance(recv, Lit):
+            return Tup(tuple(Lit(x) for x in recv.s.split()))          # concrete text cut at white space
         if meth in ("split", "rsplit", "partition", "rpartition") and args and isinstance(args[0], Lit) and not kw:
             sep = args[0].s
             if isinstance(recv, Lit):
@@ -2046,10 +2121,15 @@ class Engine:
         if meth in ("lower", "upper") and not args:
             return Lit(getattr(recv.s, meth)()) if isinstance(recv, Lit) else CaseOf(recv, meth)
         if meth in ("index", "find", "rfind", "rindex", "count", "startswith", "endswith", "isdigit"):
-            if isinstance(recv, Lit) and all(isinstance(a, Lit) for a in args):
+            if isinstance(recv, Lit) and not kw and (not args or isinstance(args[0], Lit)) and all(isinstance(a, Lit) or as_int(a) is not None for a in args):
+                # concrete text, concrete pattern, optional concrete start / end positions
                 try:
-                    r = getattr(recv.s, meth)(*[a.s for a in args])
+                    r = getattr(recv.s, meth)(*[a.s if isinstance(a, Lit) else as_int(a) for a in args])
+                except TypeError:
+                    return Unk("string method arguments")
                 except ValueError:
+                    if self.exceptions:
+                        raise Raised("ValueError")       # concrete text: `index` / `rindex` of a character it does not hold raises here
                     return Unk("substring not found")
                 return Const(r) if isinstance(r, bool) else Fraction(r)
             return Opaque("." + meth, (recv,) + tuple(args))
@@ -2268,7 +2348,7 @@ def _by_position(fn, args, kw):
 def _reown(v, old, new, env):
     """a function value that leaves the frame that defined it keeps that frame's locals"""
     if isinstance(v, FuncV):
-        return FuncV(v.node, new, dict(env)) if v.owner == old else v
+        return FuncV(v.node, new, dict(env), v.defaults) if v.owner == old else v
     if isinstance(v, Tup):
         return Tup(tuple(_reown(x, old, new, env) for x in v.items))
     if isinstance(v, DictV):
